@@ -27,6 +27,8 @@ pub enum Flavour {
 #[derive(Clone, Copy, Debug, PartialEq, Eq)]
 pub enum Access {
     Standalone,
+    /// one handle that is never cloned (not registered anywhere), shared by reference between the threads
+    Unshared,
     /// child of a vector, fetched by every thread itself (creation race in play)
     VecChild,
     /// child of a vector fetched through the map form
@@ -153,8 +155,24 @@ impl LocalH {
     }
 }
 
+enum Handle<'a> {
+    Borrowed(&'a Ctr),
+    Owned(Ctr),
+}
+
+impl std::ops::Deref for Handle<'_> {
+    type Target = Ctr;
+    fn deref(&self) -> &Ctr {
+        match self {
+            Handle::Borrowed(c) => c,
+            Handle::Owned(c) => c,
+        }
+    }
+}
+
 enum Holder {
     Standalone(Ctr),
+    Unshared(Ctr),
     VecF(CounterVec),
     VecU(IntCounterVec),
 }
@@ -174,6 +192,8 @@ impl World {
         let opts = Opts::new(name.clone(), "c01 help").const_label("k", "v");
         let registry = Registry::new();
         let holder = match (sc.access, sc.flavour) {
+            (Access::Unshared, Flavour::F64) => Holder::Unshared(Ctr::F(Counter::with_opts(opts).unwrap())),
+            (Access::Unshared, Flavour::U64) => Holder::Unshared(Ctr::U(IntCounter::with_opts(opts).unwrap())),
             (Access::Standalone, Flavour::F64) => {
                 let c = Counter::with_opts(opts).unwrap();
                 registry.register(Box::new(c.clone())).unwrap();
@@ -198,9 +218,11 @@ impl World {
         World { holder, registry, name, access: sc.access }
     }
 
-    /// The way a thread reaches the shared counter (every call goes through the vector again).
-    fn handle(&self) -> Ctr {
-        match &self.holder {
+    /// The way a thread reaches the shared counter (every call goes through the vector again;
+    /// the unshared handle is only ever borrowed).
+    fn handle(&self) -> Handle<'_> {
+        Handle::Owned(match &self.holder {
+            Holder::Unshared(c) => return Handle::Borrowed(c),
             Holder::Standalone(c) => c.clone(),
             Holder::VecF(v) => {
                 if self.access == Access::VecChildMap {
@@ -222,7 +244,7 @@ impl World {
                     Ctr::U(v.with_label_values(LV))
                 }
             }
-        }
+        })
     }
 
     fn value_in_families(&self, mfs: &[prometheus::proto::MetricFamily], name: &str) -> (Option<u64>, String) {
@@ -247,14 +269,18 @@ impl World {
             Via::Metric => self.handle().metric_value(),
             Via::Collect => {
                 let mfs = match &self.holder {
-                    Holder::Standalone(Ctr::F(c)) => c.collect(),
-                    Holder::Standalone(Ctr::U(c)) => c.collect(),
+                    Holder::Standalone(Ctr::F(c)) | Holder::Unshared(Ctr::F(c)) => c.collect(),
+                    Holder::Standalone(Ctr::U(c)) | Holder::Unshared(Ctr::U(c)) => c.collect(),
                     Holder::VecF(v) => v.collect(),
                     Holder::VecU(v) => v.collect(),
                 };
                 self.value_in_families(&mfs, &self.name)
             }
             Via::Gather => {
+                if let Holder::Unshared(_) = &self.holder {
+                    // not registered anywhere: read it directly instead
+                    return self.handle().get();
+                }
                 let mfs = self.registry.gather();
                 self.value_in_families(&mfs, &self.name)
             }
@@ -264,9 +290,10 @@ impl World {
 
 pub fn generate(rng: &mut Rng, job: &Job) -> Scenario {
     let flavour = if rng.chance(1, 2) { Flavour::F64 } else { Flavour::U64 };
-    let access = match rng.below(4) {
+    let access = match rng.below(5) {
         0 | 1 => Access::Standalone,
-        2 => Access::VecChild,
+        2 => Access::Unshared,
+        3 => Access::VecChild,
         _ => Access::VecChildMap,
     };
     let with_reset = rng.chance(1, 5);
